@@ -2,6 +2,7 @@ import Driver.SimCmd
 import Driver.UpdCmd
 import Driver.LexCmd
 import Driver.LoaderCmd
+import Driver.ParseCmd
 /-!
 # Line-protocol driver over the executable models
 
@@ -19,6 +20,7 @@ def step (s : DState) (line : String) : DState × String :=
   | "upd" :: args => (s, updStep args)
   | ["lex", h] => (s, lexLine h)
   | ["loader", h] => (s, loaderLine h)
+  | ["parse", h] => (s, parseLine h)
   | _ => (s, "bad-op")
 
 partial def loop (h : IO.FS.Stream) (out : IO.FS.Stream) (s : DState) : IO Unit := do
